@@ -1,4 +1,35 @@
-(** C01 — placeholder until Pop/SmProofs.v lands (replaced below in the same session) *)
-Theorem C01_placeholder : True.
-Proof. exact I. Qed.
-Print Assumptions C01_placeholder.
+(** C01 — POP state depends only on the applied chain, not on history. Closed, instantiated machine.
+
+    FULL statement aimed at: history_independence : two op histories ending with the same active chain give the same P
+    (and the same verdicts / payouts, which are functions of P and the chain).
+    PROVED: applied_canonical for EVERY reachable state (all trees, payload assignments, failing positions, scorers,
+    histories): P = bootstrap state + exactly the effects of the blocks flagged applied, as a multiset (reference
+    counts and endorsement multiset); hence two histories whose applied blocks carry the same payloads end with equal
+    reference counts and endorsements — in particular the fresh instance shown only the final chain.
+    GAP (hence _partial): "blocks flagged applied = root..tip between calls" (see Properties_C02.v); verdict and payout
+    equality are checked on the implementation by the twin oracle, not proved (scoring is property C03). *)
+From Coq Require Import List ZArith NArith Bool Permutation.
+From VB Require Import Pop.SmDefs Pop.SmProofs.
+
+Theorem C01_cmd_unexec_exec :
+  forall c p p', cexec c p = Some p' -> cunexec c p' = p.
+Proof. exact cinv_law. Qed.
+Print Assumptions C01_cmd_unexec_exec.
+
+Theorem C01_applied_canonical :
+  forall base s, reachable base s ->
+    Permutation (pst _ _ s) (active_items (blocks _ _ s) ++ base) /\ NoDup (ids (blocks _ _ s)).
+Proof. exact applied_canonical. Qed.
+Print Assumptions C01_applied_canonical.
+
+Theorem C01_history_independence_partial :
+  forall base s1 s2,
+    reachable base s1 -> reachable base s2 ->
+    Permutation (active_items (blocks _ _ s1)) (active_items (blocks _ _ s2)) ->
+    Permutation (pst _ _ s1) (pst _ _ s2) /\ (forall x, count_ref x (pst _ _ s1) = count_ref x (pst _ _ s2)).
+Proof. exact history_independence_applied. Qed.
+Print Assumptions C01_history_independence_partial.
+
+Theorem C01_nonvacuous : exists s, reachable ex_base s /\ tip _ _ s = 6%N.
+Proof. exact ex_reachable. Qed.
+Print Assumptions C01_nonvacuous.
